@@ -26,7 +26,7 @@ PINNED = [
     ("image", "Image", ["__init__", "_make_instance", "__deepcopy__", "_torch_function_grid", "_torch_function_result",
                         "__torch_function__", "batch", "grid", "grid_"]),
     ("flow", "FlowFields", ["__init__", "_make_instance", "_make_subitem", "_torch_function_axes", "_torch_function_result",
-                            "__torch_function__", "__getitem__"]),
+                            "__torch_function__", "__getitem__", "from_images", "append"]),
     ("flow", "FlowField", ["__init__", "_make_instance", "_torch_function_axes", "_torch_function_result",
                            "__torch_function__", "batch"]),
     ("tensor", "DataTensor", ["__new__", "_make_instance", "__copy__", "__deepcopy__", "__reduce_ex__", "tensor"]),
@@ -119,13 +119,21 @@ def generate(loader):
     tests = func_tests(gfn)
     out.append("(* ImageBatch._torch_function_grid: special-cased functions in source order *)")
     out.append("Definition gen_grid_tests : list (list string) := " + clist([clist([cstr(n) for n in t]) for t in tests]) + ".\n")
-    guards = [n for n in ast.walk(gfn) if isinstance(n, ast.If) and "kwargs" in ast.unparse(n.test)]
+    guards = [n for n in gfn.body if isinstance(n, ast.If) and func_tests(ast.Module(body=n.body, type_ignores=[]))]
     if len(guards) != 1:
-        raise Fail("_torch_function_grid: expected exactly one guard on kwargs")
+        raise Fail("_torch_function_grid: expected exactly one top-level guard around the special cases")
     inner = func_tests(ast.Module(body=guards[0].body, type_ignores=[]))
     if inner != tests:
-        raise Fail("_torch_function_grid: a special case sits outside the kwargs guard")
+        raise Fail("_torch_function_grid: a special case sits outside the guard")
     out.append("Definition gen_grid_guard : string := " + cstr(ast.unparse(guards[0].test)) + ".\n")
+    # how the guard variable is computed: every statement that assigns to it
+    gv = [n.id for n in ast.walk(guards[0].test) if isinstance(n, ast.Name)]
+    if gv != ["dim"]:
+        raise Fail(f"_torch_function_grid: unexpected guard variables {gv}")
+    assigns = [ast.unparse(st) for st in gfn.body
+               if any(isinstance(t, ast.Name) and t.id == "dim" and isinstance(t.ctx, ast.Store) for t in ast.walk(st)) and st is not guards[0]]
+    out.append("(* statements computing the dim the guard tests *)")
+    out.append("Definition gen_grid_dim : list string := " + clist([cstr(a) for a in assigns]) + ".\n")
     rows = []
     for mod, cls in (("image", "ImageBatch"), ("flow", "FlowFields"), ("image", "Image"), ("flow", "FlowField")):
         fn = find(trees[mod], cls, "_torch_function_result")
